@@ -332,6 +332,10 @@ var hostileQueries = []string{"", "0", "00", "a", "x", "yy", "00a", "Ab", "q", "
 // run builds the root block, reifies it lazily and with preload and exercises
 // every node operation under recover() and a step budget.
 func (c hostileCase) run(viol func(sig, detail string), r *core.Run) {
+	if c.Family == "chain" && len(c.Links) == 2 && c.Links[1] < len(c13ChainNames()) {
+		c13Chain(c.Payload, c.Links[0], c.Links[1], viol, nil)
+		return
+	}
 	if c.Family == "diamond" && len(c.Links) == 1 && c.Links[0] < len(c13Hows) {
 		c13Diamond(c.Payload, c13Hows[c.Links[0]], viol)
 		return
@@ -599,8 +603,68 @@ type c13Slot struct {
 
 // c13Chains: single-child shard chains of depth maxLevels-1 .. maxLevels+2 for
 // every fanout; every operation must return a value or an error.
+func c13ChainNames() []string {
+	return []string{gen.NameWithHash(0xA5C396E17B2D4F80), gen.NameWithHash(^uint64(0)), "k75"}
+}
+
+func c13Chain(fanout, depth, nameIdx int, viol func(sig, detail string), r *core.Run) {
+	names := c13ChainNames()
+	name := names[nameIdx]
+	w := 0
+	for 1<<uint(w) < fanout {
+		w++
+	}
+	max := model.MaxLevels(w)
+	s := store.New()
+	root, leaf := gen.DeepChain(s, name, fanout, depth)
+	desc := fmt.Sprintf("chain fanout=%d depth=%d (addressable levels %d) name=%q", fanout, depth, max, name)
+	ls := lsFor(s)
+	rn, err := loadRoot(ls, root)
+	if err != nil {
+		viol("harness-bad-case", "deep chain: "+err.Error())
+		return
+	}
+	for _, how := range c13Hows {
+		var nd datamodel.Node
+		var rerr error
+		guard := func(op string, f func()) {
+			if p, pv := core.Guard(f); p {
+				viol("panic chain "+op, fmt.Sprintf("%s via %s: %v", desc, how, pv))
+			}
+			if r != nil {
+				r.Transitions.Add(1)
+			}
+		}
+		guard("reify", func() { nd, rerr = openVia(how, ls, rn) })
+		if rerr != nil || nd == nil {
+			continue
+		}
+		for _, q := range []string{name, "other", names[0], ""} {
+			q := q
+			guard("lookup", func() {
+				res, lerr := lookupAll(nd, q)
+				if q == name && depth <= max && (lerr != nil || res[0] != leaf.Cid.String()) {
+					viol("chain-lookup-misses", fmt.Sprintf("%s via %s: lookup of the chained name = %q err=%v", desc, how, res[0], lerr))
+				}
+				if q == name && depth > max && lerr == nil {
+					viol("chain-lookup-beyond-hash", fmt.Sprintf("%s via %s: lookup succeeded %d levels deep", desc, how, depth))
+				}
+			})
+		}
+		guard("iterate", func() {
+			pairs, _, term := iterateMap(nd, 10*depth+64)
+			if !term {
+				viol("unbounded chain-iterate", desc)
+			}
+			if len(pairs) > 1 {
+				viol("chain-iterate-extra", fmt.Sprintf("%s: %v", desc, pairs))
+			}
+		})
+		guard("length", func() { _ = nd.Length() })
+	}
+}
+
 func c13Chains(r *core.Run) {
-	names := []string{gen.NameWithHash(0xA5C396E17B2D4F80), gen.NameWithHash(^uint64(0)), "k75"}
 	n := 0
 	for _, fanout := range []int{8, 16, 32, 64, 128, 256, 512, 1024} {
 		w := 0
@@ -609,55 +673,12 @@ func c13Chains(r *core.Run) {
 		}
 		max := model.MaxLevels(w)
 		for _, depth := range []int{1, max - 1, max, max + 1, max + 2} {
-			for _, name := range names {
+			for ni := range c13ChainNames() {
 				n++
-				s := store.New()
-				root, leaf := gen.DeepChain(s, name, fanout, depth)
-				desc := fmt.Sprintf("chain fanout=%d depth=%d (addressable levels %d) name=%q", fanout, depth, max, name)
+				c := hostileCase{Family: "chain", Payload: fanout, Links: []int{depth, ni}}
 				r.Evaluations.Add(1)
-				r.Distinct(desc)
-				ls := lsFor(s)
-				rn, err := loadRoot(ls, root)
-				if err != nil {
-					r.InternalError("deep chain: " + err.Error())
-					return
-				}
-				for _, how := range []string{"unixfs", "unixfs-preload"} {
-					var nd datamodel.Node
-					var rerr error
-					guard := func(op string, f func()) {
-						if p, pv := core.Guard(f); p {
-							r.Violate("panic chain "+op, fmt.Sprintf("%s via %s: %v", desc, how, pv), map[string]any{"family": "chain", "fanout": fanout, "depth": depth, "name": name})
-						}
-						r.Transitions.Add(1)
-					}
-					guard("reify", func() { nd, rerr = openVia(how, ls, rn) })
-					if rerr != nil || nd == nil {
-						continue
-					}
-					for _, q := range []string{name, "other", names[0], ""} {
-						q := q
-						guard("lookup", func() {
-							res, lerr := lookupAll(nd, q)
-							if q == name && depth <= max && (lerr != nil || res[0] != leaf.Cid.String()) {
-								r.Violate("chain-lookup-misses", fmt.Sprintf("%s via %s: lookup of the chained name = %q err=%v", desc, how, res[0], lerr), nil)
-							}
-							if q == name && depth > max && lerr == nil {
-								r.Violate("chain-lookup-beyond-hash", fmt.Sprintf("%s via %s: lookup succeeded %d levels deep", desc, how, depth), nil)
-							}
-						})
-					}
-					guard("iterate", func() {
-						pairs, _, term := iterateMap(nd, 10*depth+64)
-						if !term {
-							r.Violate("unbounded chain-iterate", desc, nil)
-						}
-						if len(pairs) > 1 {
-							r.Violate("chain-iterate-extra", fmt.Sprintf("%s: %v", desc, pairs), nil)
-						}
-					})
-					guard("length", func() { _ = nd.Length() })
-				}
+				r.Distinct(c.String())
+				c13Chain(fanout, depth, ni, func(sig, detail string) { r.Violate(sig, detail, c) }, r)
 				r.States.Add(1)
 			}
 		}
